@@ -191,6 +191,12 @@ def main(write, HEADER, parse, PKG):
         "g_bhw = self.combine_sts_lts(self.gFunction.log_time, g_function_corrected, self.radial_numerical.lntts.tolist(), self.radial_numerical.g_bhw.tolist())",
         "return (g, g_bhw)",
     ])
+    # ... and nothing else: every call reads the g-function object, the radius and the short-time response
+    # afresh (Model: grabGFunction is a function of the present ingredients only; no memo, no early return)
+    body = [ast.unparse(st) for st in fn.body if not (isinstance(st, ast.Expr) and isinstance(st.value, ast.Constant))]
+    if len(body) != 5 or [a.arg for a in fn.args.args] != ["self", "b_over_h"]:
+        _DEFERRED.append(Unsupported(f1, fn, f"grab_g_function is no longer the five transcribed statements ({len(body)} statements): "
+                                             "it must read its ingredients on every call"))
     out.append("\nend GHEVerif.Gen.GJoinConsts\n")
     write("GJoinConsts.lean", "\n".join(out))
     if _DEFERRED:
